@@ -70,7 +70,8 @@ def gen_spec(rng):
                 cons.append(['fixSecondType', g, rng.randrange(n + N), ty])
         else:
             cons.append(['forbidWire', rng.randrange(n + N), g])
-    return {'n': n, 'm': m, 'N': N, 'table': table, 'bkind': bkind, 'basis': basis, 'normalized': rng.random() < 0.3, 'cons': cons}
+    return {'n': n, 'm': m, 'N': N, 'table': table, 'bkind': bkind, 'basis': basis, 'normalized': rng.random() < 0.3, 'cons': cons,
+            'edit_list_after': (rng.choice([None, 'clear', 'extend']) if bkind in ('custom', 'custom_full') else None)}
 
 
 def make_finder(spec):
@@ -88,6 +89,12 @@ def make_finder(spec):
     else:
         basis = [Operation(o) for o in spec['basis']]
     f = CircuitFinderSat(TruthTableModel(tt), spec['N'], basis=basis, need_normalized=spec['normalized'])
+    if isinstance(basis, list) and spec.get('edit_list_after'):
+        # the caller goes on using its list of operations: the finder was asked for the basis it was constructed with
+        if spec['edit_list_after'] == 'clear':
+            del basis[:]
+        else:
+            basis.extend(o for o in Operation if o not in basis)
     accepted = []
     rejected = []
     for c in spec['cons']:
